@@ -37,6 +37,16 @@ CHECKS = {
          "Schema.tla: every single (thorough: pair of) mutation(s) of every valid base document over 9 fields x 7..31 classes; Refines, MutationRejected (5 mutants killed); each abstract document concretised and checked; accepted documents are passed to every verifier in every argument position and must not fail internally."),
  "C15": ("model_checking", "3.7, 6 C15", "Formats.tla grammars over character-class templates enumerated by TLC + replay into every is_*/checkformat_* pair",
          "Formats.tla: 60k templates/shapes/lists; OneSpelling and ListOK are ASSUMEd theorems checked by TLC (3 mutants killed); each template instantiated with random characters of its classes; predicate form must equal raising form; exhaustive over classes, sampled within a class."),
+ "C10": ("model_checking", "3.7, 6 C10", "Gpg.tla framing (injectivity, impostor table) checked by TLC + replay into verify_gpg_signature/verify_signable + real GnuPG signatures transcribed by the library",
+         "Gpg.tla: RFC 4880 5.2.4 DigestInput is injective on a bounded byte domain (2 mutants killed) and TLC decides for every impostor framing and header length whether it coincides with the RFC framing; header lengths 1..70000 x payload sizes x 7 framings x SHA-256/512 x 9 corruptions replayed; detached signatures freshly made by the gpg binary (temporary GNUPGHOME, generated ed25519 keys + the repository's test keys) are transcribed by sign_root_metadata_via_gpg through a GnuPG-backed stand-in for securesystemslib and must verify, every corruption must not. SHA-256/ed25519 arithmetic itself is bound differentially (hashlib, pure-Python RFC 8032, gpg --verify)."),
+ "C12": ("model_checking", "3.6, 6 C12", "TLC exhaustive exploration of Calls.tla (heap, threads, mutation) + behaviours replayed over a real pool incl. real threads under a deterministic line scheduler",
+         "Calls.tla (two-level heap, shared pool, two threads stepping through the verifier loop, caller mutation, wrap, sign): Pure, ResultIsFunction, WrapIsolates (3 mutants killed: shallow copy, shared accumulator, verdict cache); every sequential 4-operation history (exhaustive) and simulated 2-thread behaviours replayed with deep argument snapshots; overlapping calls run as real threads under a deterministic line scheduler; all 1-pre-emption and sampled 2-pre-emption line schedules for fixed pairs over shared trusted metadata with expectations from the verifier specs; histories repeated in fresh interpreters per configuration."),
+ "C16": ("model_checking", "3.7, 6 C16", "Builders.tla (argument classes composed with SchemaReq) enumerated by TLC + replay into the builders + built root chains judged by Trace_Root",
+         "Builders.tla: every argument-class tuple; BuiltIsValid / CorruptNeverValid invariants tie the builders to the schema; each tuple concretised and called: argument error iff TLC says so, otherwise verbatim fields, spec version, default expiry about one year after the timestamp, passes the checker; built v(n)..v(n+2) root chains signed with the OpenPGP signer are judged by Trace_Root.tla."),
+ "C17": ("model_checking", "3.7, 6 C17", "Cli.tla (dispatch, verdict-to-exit-status, entry points) checked by TLC + every case run as a real process",
+         "Cli.tla: ExitReflectsVerdict, SuccessSaidIffAccept, RootDispatch, ZeroOnlyIfSigned (4 mutants killed); every entry point (regenerated console script, python -m package, python -m cli module, in-process) x every file-pair class / signing outcome run as a real process on its own files; the library's verdict is taken from the same files in process."),
+ "C19": ("model_checking", "3.7, 6 C19", "Keys.tla conversion graph paths enumerated by TLC + concrete walk compared with a pure-Python RFC 8032 reference",
+         "Keys.tla: all conversion paths to depth 6/8, FunctionOfSeed (2 mutants killed); each path walked concretely for seeded seeds and the RFC 8032 vectors with every intermediate value compared to the reference; key files, equivalence laws, malformed encodings."),
  "C18": ("fault_enumeration", "3.5, 4.3, 6 C18", "InPlace.tla (NoEarlyTouch/AllOrNothing) + an injected exception at every executed line + audit hook, judged by Trace_InPlace",
          "InPlace.tla with Fault at every step (3 mutants killed); at the code level an exception is injected at every line event (library + json encoder frames) of the fault-free run of five procedures, the target's open-for-writing/rename is observed by an audit hook, and Trace_InPlace.tla searches for a specification behaviour explaining each observation; every malformed-input class is run as well."),
 }
